@@ -273,7 +273,7 @@ class Sim:
     def digest(self) -> str:
         h = hashlib.sha256()
         for rec in self.trace:
-            h.update(norm(json.dumps(rec, default=_jd, sort_keys=True)).encode())
+            h.update(json.dumps(_nrm(rec), sort_keys=True).encode())
             h.update(b"\n")
         for lab in self.steps_labels:
             h.update(norm(lab).encode())
@@ -281,7 +281,20 @@ class Sim:
         return h.hexdigest()
 
     def dump_trace(self) -> list:
-        return [json.loads(norm(json.dumps(rec, default=_jd, sort_keys=True))) for rec in self.trace]
+        return [_nrm(rec) for rec in self.trace]
+
+
+def _nrm(o: Any) -> Any:
+    """JSON-able copy with addresses / task counters normalised in strings only."""
+    if isinstance(o, str):
+        return norm(o)
+    if isinstance(o, (bool, int, float)) or o is None:
+        return o
+    if isinstance(o, dict):
+        return {norm(str(k)): _nrm(v) for k, v in o.items()}
+    if isinstance(o, (list, tuple)):
+        return [_nrm(v) for v in o]
+    return _jd(o)
 
 
 def _jd(o: Any) -> Any:
